@@ -373,7 +373,7 @@ Record lframe (s s' : db) : Prop := mkLf {
                    | Some l => aget (store s') r = None \/ exists n, aget (store s') r = Some (l <| l_refc := n |>)
                    end;
   lf_m : forall k, (aget (mgrs s') k = None <-> aget (mgrs s) k = None)
-                   /\ m_locked (getm s' k) = m_locked (getm s k) /\ m_waited (getm s' k) = m_waited (getm s k)
+                   /\ m_locked (getm s' k) = m_locked (getm s k)
                    /\ m_data (getm s' k) = m_data (getm s k);
   lf_tw : twheel s' = twheel s; lf_tl : tlong s' = tlong s; lf_ew : ewheel s' = ewheel s; lf_el : elong s' = elong s;
   lf_next : next s' = next s; lf_cnt : cnt s' = cnt s; lf_now : now s' = now s; lf_leader : leader s' = leader s;
@@ -399,12 +399,12 @@ Proof.
       * destruct L2 as [L2|[n' L2]]; [left; exact L2|].
         right. exists n'. rewrite L2. rewrite lrefc_twice. reflexivity.
     + rewrite L1 in L2. auto.
-  - intros k. destruct (M1 k) as [X1 [X2 [X3 X4]]]. destruct (M2 k) as [Y1 [Y2 [Y3 Y4]]].
+  - intros k. destruct (M1 k) as [X1 [X2 X4]]. destruct (M2 k) as [Y1 [Y2 Y4]].
     repeat split; try congruence; tauto.
 Qed.
 (* storing new lists in a manager *)
 Lemma lframe_updm_lists s k f :
-  (forall m, m_locked (f m) = m_locked m /\ m_waited (f m) = m_waited m /\ m_data (f m) = m_data m) ->
+  (forall m, m_locked (f m) = m_locked m /\ m_data (f m) = m_data m) ->
   lframe s (updm s k f).
 Proof.
   intros H. unfold updm. destruct (aget (mgrs s) k) as [m|] eqn:Hm; [|apply lframe_refl].
@@ -412,7 +412,7 @@ Proof.
   - intros r. change (store (setm s k (f m))) with (store s). destruct (aget (store s) r) as [l|]; auto.
     right. exists (l_refc l). rewrite lrefc_id. auto.
   - intros k0. rewrite getm_setm, mgrs_setm, aget_aset. destruct (k =? k0) eqn:E.
-    + apply N.eqb_eq in E; subst. rewrite (getm_some _ _ _ Hm), Hm. destruct (H m) as [H1 [H2 H3]].
+    + apply N.eqb_eq in E; subst. rewrite (getm_some _ _ _ Hm), Hm. destruct (H m) as [H1 H3].
       repeat split; auto; intros; discriminate.
     + repeat split; auto.
 Qed.
